@@ -78,6 +78,32 @@ pub fn run(cfg: &Cfg) -> (&'static str, Report, String, String) {
     let alpha2 = [0u8, 0xC3, 0xB1, b'x', 0xE5];
     let all2 = bytes_upto(&alpha2, cfg.by(3, 5, 6));
     rep.merge(par_for(cfg, all2.len(), |i, r| one(r, &all2[i])));
+    // planted: every length 0..=L, first nul at every position (none, one, or a second nul later), non-zero
+    // filler with the high bit set or clear - block/word-wise nul searches have their cases at 8/16/32
+    let maxl = cfg.by(20, 80, 200);
+    rep.merge(par_for(cfg, maxl + 1, |l, r| {
+        for fill in [b'a', 0x80u8, 0xFF, 0x01] {
+            let base = vec![fill; l];
+            one(r, &base);
+            for p in 0..l {
+                if cfg.miri() && !(p % 8 <= 1 || p + 1 == l) {
+                    continue;
+                }
+                let mut b = base.clone();
+                b[p] = 0;
+                one(r, &b);
+                if p + 1 < l {
+                    let mut b2 = b.clone();
+                    b2[l - 1] = 0;
+                    one(r, &b2);
+                    let mut b3 = b.clone();
+                    b3[p + 1] = 0;
+                    one(r, &b3);
+                }
+            }
+        }
+        r.ev("planted-nul");
+    }));
     let nrand = cfg.by(5, 2000, 20000);
     rep.merge(par_for(cfg, nrand, |i, r| {
         let mut rng = Rng::new(cfg.seed.wrapping_mul(2_147_483_647).wrapping_add(i as u64));
@@ -94,7 +120,7 @@ pub fn run(cfg: &Cfg) -> (&'static str, Report, String, String) {
     (
         "C20",
         rep,
-        format!("all {} byte strings of length <= {} over {{0,'a',0xFF}}; all {} over {{0,0xC3,0xB1,'x',0xE5}}; {} seeded random byte strings", all.len(), cfg.by(4, 6, 8), all2.len(), nrand),
+        format!("all {} byte strings of length <= {} over {{0,'a',0xFF}}; all {} over {{0,0xC3,0xB1,'x',0xE5}}; {} seeded random byte strings; planted: every length 0..={} x filler {{'a',0x80,0xFF,0x01}} x first nul at every position (alone, + last byte nul, + next byte nul)", all.len(), cfg.by(4, 6, 8), all2.len(), nrand, maxl),
         "one evaluation = one konst::ffi::cstr call compared with core::ffi::CStr (from_bytes_until_nul / from_bytes_with_nul succeed iff std's do and give an equal &CStr that borrows from the input; to_bytes, to_bytes_with_nul by value and address, to_str); error variants are not compared; non-trivial = distinct inputs of length >= 2 containing a nul".into(),
     )
 }
